@@ -140,3 +140,11 @@ Example C09_nonvacuous :
   (forall v rest, t_dec_view (t_enc_view v ++ rest) = Some (v, rest)) /\
   nonvacuous_run = true.
 Proof. split; [exact t_reqs_law|]. split; [exact t_view_law|]. vm_compute. reflexivity. Qed.
+
+(* The decidable trace predicate the check evaluates on the implementation's observations (image of every
+   call, ids fresh / distinct / registered with the right arity, same view) holds of the model's own
+   observations, for every behaviour of the core (replay tables) and every history. *)
+Theorem C09_ok_holds_of_model : forall (tb : rtables) (ins : list oin),
+  (forall c, In c (m_twin_run tb (map bin_of ins)) -> is_panic (c_out _ _ _ _ _ c) = false) ->
+  C09_ok (map (fun p => model_obs tb (fst p) (snd p)) (combine ins (m_twin_run tb (map bin_of ins)))) = true.
+Proof. exact model_C09_ok. Qed.
